@@ -27,7 +27,7 @@ use super::*;
 type HM = MixHasher<F64>;
 
 fn any_digest() -> D {
-    crypto::hash::ByteDigest::new(vs::any_bytes::<DN>())
+    mk::digest_from(vs::any_bytes::<DN>())
 }
 fn any_elem() -> F64 {
     let v = vs::any_u64();
